@@ -145,7 +145,10 @@ PROPS['C10'] = {
     'group': 'plss', 'level': 'proof', 'build_timeout': 2400,
     'explanation': 'Proved for EVERY text and setting (C10_paired): on the description and on every tract, w_flags/e_flags are paired one-to-one in order with their (flag, context) lines -- through '
                    'unpackers, TractParser, finders (incl. the colon-cautious second pass and ignored Twp/Rge), ChunkParser, gen_flags_chunk, PLSSParser and hand-down; every description flag is appended to '
-                   'every tract; an error tract puts twprge_error among the error flags. That trigger phrases raise their warnings is decided on each run by the phrase-placement oracle. ' + _PLSS_TIE,
+                   'every tract; an error tract puts twprge_error among the error flags. Trigger wording (C10_triggers): for each of 29 trigger wordings (well/wellbore, depth(s)/surface/formation/down/top/base, '
+                   'incl..., less/less and except/except/limit..., insofar/in so far/(but) only insofar) and EVERY text before and after it (any length; word boundary where the pattern asks for one) the regenerated '
+                   'FLAG_TABLE pattern fires and the flag is raised (match computed on a representative and lifted to all contexts by Engine/RegexLift.v: lift, search_hit). That the context '
+                   'line contains the triggering words, and wordings outside the table, are decided on each run by the phrase-placement oracle. ' + _PLSS_TIE,
 }
 PROPS['C11'] = {
     'group': 'plss', 'level': 'proof', 'build_timeout': 2400,
